@@ -227,7 +227,7 @@ func (e *Enc) assumeLoaded(st *State, v Val) {
 			e.assumeRange(st, v)
 		case KSlice:
 			b, o, l, c := v.Sub[0].T, v.Sub[1].T, v.Sub[2].T, v.Sub[3].T
-			e.assume(fmt.Sprintf("(and (<= 0 %s) (< %s %s) (<= 0 %s) (<= 0 %s) (<= %s %s) (=> (= %s 0) (= %s 0)))", b, b, st.next, o, l, l, c, b, c))
+			e.assume(fmt.Sprintf("(and (<= 0 %s) (< %s %s) (<= 0 %s) (<= 0 %s) (<= %s %s) (<= (+ %s %s) 281474976710656) (=> (= %s 0) (= %s 0)))", b, b, st.next, o, l, l, c, o, c, b, c))
 		case KIface:
 			e.assume(fmt.Sprintf("(and (<= 0 %s) (=> (= %s 0) (= %s 0)) (=> (isptrtype %s) (and (< 0 %s) (< %s %s))))", v.Sub[0].T, v.Sub[0].T, v.Sub[1].T, v.Sub[0].T, v.Sub[1].T, v.Sub[1].T, st.next))
 		case KStruct, KTuple:
@@ -235,7 +235,7 @@ func (e *Enc) assumeLoaded(st *State, v Val) {
 				rec(s)
 			}
 		case KStr:
-			e.assume(fmt.Sprintf("(<= 0 (slen %s))", v.T))
+			e.assume(fmt.Sprintf("(and (<= 0 (slen %s)) (<= (slen %s) 281474976710656))", v.T, v.T))
 		}
 	}
 	rec(v)
